@@ -121,6 +121,17 @@ pub fn plan_distributed(ctx: &ExecutionContext, sql: &str) -> Result<Distributed
         .iter()
         .map(|f| f.name.clone())
         .collect();
+    // What the single-node engine CALLS each output column. An unaliased
+    // qualified reference (`d.name`) keeps its qualifier in the result schema
+    // (`SchemaField::to_arrow_field`), so the merge stage must label (TwoPhase)
+    // and address (TopN: the partial rows carry these names) the column the
+    // same way — `output_names` stays the bare vocabulary ORDER BY may use.
+    let display_names: Vec<String> = logical
+        .schema()
+        .fields()
+        .iter()
+        .map(|f| f.qualified_name())
+        .collect();
 
     let group_exprs: Vec<sa::Expr> = match &select.group_by {
         sa::GroupByExpr::Expressions(exprs, modifiers) => {
@@ -148,10 +159,10 @@ pub fn plan_distributed(ctx: &ExecutionContext, sql: &str) -> Result<Distributed
                 partial_sql: sql.trim().trim_end_matches(';').to_string(),
                 final_sql: None,
                 shape: MergeShape::Concat,
-                output_names,
+                output_names: display_names,
             });
         }
-        return plan_topn(select, &ol, caps.table, output_names);
+        return plan_topn(select, &ol, caps.table, output_names, display_names);
     }
 
     if select.projection.len() != output_names.len() {
@@ -183,7 +194,7 @@ pub fn plan_distributed(ctx: &ExecutionContext, sql: &str) -> Result<Distributed
             // Quoted, because the engine's own name for an unaliased aggregate
             // is `SUM(l_quantity)` — parentheses and all — and the distributed
             // answer must carry the same header as the single-node one.
-            alias: sa::Ident::with_quote('"', output_names[i].clone()),
+            alias: sa::Ident::with_quote('"', display_names[i].clone()),
         });
     }
     let final_having = match &select.having {
@@ -191,7 +202,7 @@ pub fn plan_distributed(ctx: &ExecutionContext, sql: &str) -> Result<Distributed
         None => None,
     };
 
-    let final_order = rewrite_order_by(&ol.order_by, &output_names, &mut rw)?;
+    let final_order = rewrite_order_by(&ol.order_by, &output_names, &display_names, &mut rw)?;
     let partial_sql = rw.partial_sql(select, &group_exprs);
     let mut final_sql = rw.final_sql(final_projection, final_having);
     push_order_limit(&mut final_sql, &final_order, &ol);
@@ -205,7 +216,7 @@ pub fn plan_distributed(ctx: &ExecutionContext, sql: &str) -> Result<Distributed
         partial_sql,
         final_sql: Some(final_sql),
         shape: MergeShape::TwoPhase,
-        output_names,
+        output_names: display_names,
     })
 }
 
@@ -262,6 +273,7 @@ fn order_suffix(o: &sa::OrderByExpr) -> String {
 fn rewrite_order_by(
     order_by: &[sa::OrderByExpr],
     output_names: &[String],
+    display_names: &[String],
     rw: &mut Rewriter,
 ) -> Result<Vec<String>> {
     let mut out = Vec::with_capacity(order_by.len());
@@ -279,10 +291,14 @@ fn rewrite_order_by(
                         "ORDER BY position {ord} is out of range"
                     )));
                 }
-                format!("\"{}\"", output_names[ord - 1])
+                format!("\"{}\"", display_names[ord - 1])
             }
             sa::Expr::Identifier(id) if output_names.iter().any(|n| *n == id.value) => {
-                format!("\"{}\"", id.value)
+                let i = output_names
+                    .iter()
+                    .position(|n| *n == id.value)
+                    .expect("guarded above");
+                format!("\"{}\"", display_names[i])
             }
             e => rw.rewrite(e)?.to_string(),
         };
@@ -313,6 +329,7 @@ fn plan_topn(
     ol: &OrderLimit,
     table: String,
     output_names: Vec<String>,
+    display_names: Vec<String>,
 ) -> Result<DistributedPlan> {
     // Merge-stage ORDER BY may only use columns the partial rows carry:
     // output aliases/columns or ordinals.
@@ -331,10 +348,14 @@ fn plan_topn(
                         "ORDER BY position {ord} is out of range"
                     )));
                 }
-                output_names[ord - 1].clone()
+                display_names[ord - 1].clone()
             }
             sa::Expr::Identifier(id) if output_names.iter().any(|n| *n == id.value) => {
-                id.value.clone()
+                let i = output_names
+                    .iter()
+                    .position(|n| *n == id.value)
+                    .expect("guarded above");
+                display_names[i].clone()
             }
             sa::Expr::CompoundIdentifier(parts)
                 if parts
@@ -342,7 +363,20 @@ fn plan_topn(
                     .map(|p| output_names.iter().any(|n| *n == p.value))
                     .unwrap_or(false) =>
             {
-                parts.last().expect("checked").value.clone()
+                // Prefer the column the statement actually named (`t.id`),
+                // fall back to the first output with that bare name.
+                let full = parts
+                    .iter()
+                    .map(|p| p.value.as_str())
+                    .collect::<Vec<_>>()
+                    .join(".");
+                let last = &parts.last().expect("checked").value;
+                let i = display_names
+                    .iter()
+                    .position(|n| *n == full)
+                    .or_else(|| output_names.iter().position(|n| n == last))
+                    .expect("guarded above");
+                display_names[i].clone()
             }
             other => {
                 return Err(unsupported(format!(
@@ -373,7 +407,7 @@ fn plan_topn(
 
     let mut final_sql = format!(
         "SELECT {} FROM {PARTIAL_TABLE}",
-        output_names
+        display_names
             .iter()
             .map(|n| format!("\"{n}\""))
             .collect::<Vec<_>>()
@@ -386,7 +420,7 @@ fn plan_topn(
         partial_sql,
         final_sql: Some(final_sql),
         shape: MergeShape::TopN,
-        output_names,
+        output_names: display_names,
     })
 }
 
